@@ -1845,13 +1845,15 @@ fn scalar_convert_to_comparable(depth: u8, jentry: &JEntry, value: &[u8], buf: &
             };
             let length = (header & CONTAINER_HEADER_LEN_MASK) as usize;
             match header & CONTAINER_HEADER_TYPE_MASK {
+                // the depth marker is one byte: beyond 255 levels it wraps (explicitly, so that
+                // builds with overflow checks do not panic on deeply nested values)
                 ARRAY_CONTAINER_TAG => {
                     buf.push(ARRAY_LEVEL);
-                    array_convert_to_comparable(depth + 1, length, &value[4..], buf);
+                    array_convert_to_comparable(depth.wrapping_add(1), length, &value[4..], buf);
                 }
                 OBJECT_CONTAINER_TAG => {
                     buf.push(OBJECT_LEVEL);
-                    object_convert_to_comparable(depth + 1, length, &value[4..], buf);
+                    object_convert_to_comparable(depth.wrapping_add(1), length, &value[4..], buf);
                 }
                 _ => {}
             }
